@@ -8,10 +8,11 @@ import (
 
 func TestReplay(t *testing.T) {
 	verif.ReplayMain(map[string]func(){
-		"HarnessClientCancel":       HarnessClientCancel,
-		"HarnessHTTPCancel":         HarnessHTTPCancel,
-		"HarnessManySubscriptions":  HarnessManySubscriptions,
-		"HarnessServerCancel":       HarnessServerCancel,
-		"HarnessSubscriptionCancel": HarnessSubscriptionCancel,
+		"HarnessClientCancel":               HarnessClientCancel,
+		"HarnessHTTPCancel":                 HarnessHTTPCancel,
+		"HarnessManySubscriptions":          HarnessManySubscriptions,
+		"HarnessServerCancel":               HarnessServerCancel,
+		"HarnessSubscribeCancelledInFlight": HarnessSubscribeCancelledInFlight,
+		"HarnessSubscriptionCancel":         HarnessSubscriptionCancel,
 	})
 }
